@@ -85,7 +85,17 @@ type GhostDecl struct {
 	Sh   *Shape
 }
 
+type ReplacerSpec struct {
+	Global string
+	Quote  string // Go char literal
+	Props  []string
+	File   string
+	Line   int
+}
+
 type Contracts struct {
+	Replacers  []*ReplacerSpec
+	GlobalInvs []*Clause
 	Funcs  map[string]*FuncContract
 	Order  []string
 	Lemmas []*Lemma
@@ -135,6 +145,27 @@ func loadContracts(dir string) (*Contracts, error) {
 				cur = &FuncContract{Name: name, Loops: map[int][]*Clause{}, File: filepath.Base(fn), Line: i + 1, Vars: map[string]string{}}
 				cs.Funcs[name] = cur
 				cs.Order = append(cs.Order, name)
+			case "replacer":
+				// replacer qsReplacer [C06] quote '\''
+				g, r := splitWord(rest)
+				r = strings.TrimSpace(r)
+				rp := &ReplacerSpec{Global: g, File: filepath.Base(fn), Line: i + 1}
+				if m := tagRe.FindStringSubmatch(r); m != nil {
+					rp.Props = splitProps(m[1])
+					r = r[len(m[0]):]
+				}
+				rp.Quote = strings.TrimSpace(strings.TrimPrefix(strings.TrimSpace(r), "quote"))
+				cs.Replacers = append(cs.Replacers, rp)
+				cur = nil
+			case "globalinv":
+				c := &Clause{Kind: "globalinv", Text: strings.TrimSpace(rest), File: filepath.Base(fn), Line: i + 1}
+				ex, err := parseSpec(c.Text)
+				if err != nil {
+					return nil, fmt.Errorf("%s:%d: %v", fn, i+1, err)
+				}
+				c.Expr = ex
+				cs.GlobalInvs = append(cs.GlobalInvs, c)
+				cur = nil
 			case "ghost":
 				n, s := splitWord(rest)
 				cs.Ghosts[n] = &GhostDecl{Name: n, Sort: strings.TrimSpace(s)}
